@@ -1,7 +1,7 @@
 (* ColorProofs.v — lemmas for C08 (continued; sweeps are in ColorBase.v). *)
 From Coq Require Import String.
 From Coq Require Import List Ascii Bool NArith ZArith QArith Lia.
-Require Import Model.Text Model.ParamTypes Model.Num Gen.Params Model.Color Spec.ColorSpec Proofs.ColorBase.
+Require Import Model.Text Model.ParamTypes Model.Num Gen.PColor Model.Color Spec.ColorSpec Proofs.ColorBase.
 Import ListNotations.
 Local Open Scope char_scope.
 
